@@ -21,15 +21,30 @@ from .image import mk_image, _arr
 # ---- parity of an image: carried by its (opaque) WCS -------------------------------------------------
 
 def _parity_model(interp, env):
+    """call-site behaviour of _wcs_to_parity_sign = its contract (contracts/parity.py, C16)"""
     wcs = env.lookup("wcs")
-    interp.note_assumption("_wcs_to_parity_sign / _flip_wcs_parity: verified separately (C16); here the WCS is opaque and carries its parity")
-    return wcs.attrs["_g_parity"]
+    interp.note_assumption("_wcs_to_parity_sign / _flip_wcs_parity are used through their contracts (proved in C16)")
+    if "_g_parity" in wcs.attrs:
+        return wcs.attrs["_g_parity"]
+    from .parity import cd_of, det
+    return simp(z3.If(det(cd_of(wcs.attrs["_g_header"])) < 0, 1, -1))
 
 
 def _flip_model(interp, env):
+    """call-site behaviour of _flip_wcs_parity = its contract: CD column 2 negated, CRPIX2 -> H+1-CRPIX2"""
     wcs = env.lookup("wcs")
     new = Opaque("wcs", fresh_name("wcs_flipped"))
-    new.attrs["_g_parity"] = simp(-z3num(wcs.attrs["_g_parity"]))
+    if "_g_parity" in wcs.attrs:
+        new.attrs["_g_parity"] = simp(-z3num(wcs.attrs["_g_parity"]))
+    if "_g_header" in wcs.attrs:
+        from .parity import cd_of
+        h = dict(wcs.attrs["_g_header"])
+        cd = cd_of(h)
+        for k in ("CDELT1", "CDELT2", "PC1_1", "PC1_2", "PC2_1", "PC2_2"):
+            h.pop(k, None)
+        h["CD1_1"], h["CD1_2"], h["CD2_1"], h["CD2_2"] = cd[0][0], -cd[0][1], cd[1][0], -cd[1][1]
+        h["CRPIX2"] = z3.ToReal(z3num(env.lookup("image_height"))) + 1 - z3num(h["CRPIX2"])
+        new.attrs["_g_header"] = h
     new.attrs["_g_flipped_from"] = wcs
     new.attrs["_g_height"] = env.lookup("image_height")
     return new
